@@ -23,23 +23,44 @@ type kernelSpec struct {
 	Params []string          // Lean parameters in order, "name : Type"
 	Map    map[string]string // Go expression (normalised) → Lean term
 	Ret    string            // Lean return type
+	Target string            // fragment kernels: the assigned lvalue (normalised); "" for whole-function kernels
+	Occ    int               // fragment kernels: which maximal assignment chain inside Func (0-based, source order)
 }
 
 var kernelSpecs = []kernelSpec{
 	{Name: "doLock", Pkg: "server", Recv: "LockDB", Func: "doLock", Ret: "Bool",
-		Params: []string{"locked : Nat", "curCount : Nat", "count : Nat", "tflag : Nat", "cmpVersion : Int"},
+		Params: []string{"locked : Nat32", "curCount : Nat16", "count : Nat16", "tflag : Nat16", "cmpVersion : Int"},
 		Map: map[string]string{
 			"lockManager.locked": "locked", "lockManager.currentLock.command.Count": "curCount", "lock.command.Count": "count",
 			"lock.command.TimeoutFlag": "tflag",
 			"self.compareLockVersion(lock.command.LockId,lockManager.currentLock.command.LockId)": "cmpVersion"}},
 	{Name: "checkLockedCountEqual", Pkg: "server", Recv: "LockManager", Func: "checkLockedCountEqual", Ret: "Bool",
-		Params: []string{"count : Nat", "rcount : Nat", "tflag : Nat", "hCount : Nat", "hRcount : Nat", "hTflag : Nat"},
+		Params: []string{"count : Nat16", "rcount : Nat8", "tflag : Nat16", "hCount : Nat16", "hRcount : Nat8", "hTflag : Nat16"},
 		Map: map[string]string{"command.Count": "count", "command.Rcount": "rcount", "command.TimeoutFlag": "tflag",
 			"lock.command.Count": "hCount", "lock.command.Rcount": "hRcount", "lock.command.TimeoutFlag": "hTflag"}},
 	{Name: "checkLockedEqual", Pkg: "server", Recv: "LockManager", Func: "CheckLockedEqual", Ret: "Bool",
-		Params: []string{"now : Int", "expT : Int", "eflag : Nat", "expried : Nat", "countEq : Bool"},
+		Params: []string{"now : Int", "expT : Int", "eflag : Nat16", "expried : Nat16", "countEq : Bool"},
 		Map: map[string]string{"command.ExpriedFlag": "eflag", "command.Expried": "expried", "lock.expriedTime": "expT",
 			"self.lockDb.currentTime": "now", "self.checkLockedCountEqual(lock,command)": "countEq"}},
+	// deadline formulas: every place that computes a hold's expiry deadline or a request's wait deadline from its command
+	{Name: "expAddLock", Pkg: "server", Recv: "LockManager", Func: "AddLock", Ret: "Int", Target: "lock.expriedTime", Occ: 0,
+		Params: []string{"start : Int", "eflag : Nat16", "expried : Nat16"},
+		Map:    map[string]string{"lock.startTime": "start", "lock.command.ExpriedFlag": "eflag", "lock.command.Expried": "expried"}},
+	{Name: "expUpdate", Pkg: "server", Recv: "LockManager", Func: "UpdateLockedLock", Ret: "Int", Target: "lock.expriedTime", Occ: 0,
+		Params: []string{"start : Int", "eflag : Nat16", "expried : Nat16"},
+		Map:    map[string]string{"lock.startTime": "start", "command.ExpriedFlag": "eflag", "command.Expried": "expried"}},
+	{Name: "toUpdate", Pkg: "server", Recv: "LockManager", Func: "UpdateLockedLock", Ret: "Int", Target: "lock.timeoutTime", Occ: 0,
+		Params: []string{"start : Int", "tflag : Nat16", "timeout : Nat16"},
+		Map:    map[string]string{"lock.startTime": "start", "command.TimeoutFlag": "tflag", "command.Timeout": "timeout"}},
+	{Name: "expNew", Pkg: "server", Recv: "LockManager", Func: "GetOrNewLock", Ret: "Int", Target: "lock.expriedTime", Occ: 0,
+		Params: []string{"start : Int", "eflag : Nat16", "expried : Nat16"},
+		Map:    map[string]string{"lock.startTime": "start", "lock.command.ExpriedFlag": "eflag", "lock.command.Expried": "expried"}},
+	{Name: "toNew", Pkg: "server", Recv: "LockManager", Func: "GetOrNewLock", Ret: "Int", Target: "lock.timeoutTime", Occ: 0,
+		Params: []string{"start : Int", "tflag : Nat16", "timeout : Nat16"},
+		Map:    map[string]string{"now": "start", "lock.command.TimeoutFlag": "tflag", "command.Timeout": "timeout"}},
+	{Name: "expAck", Pkg: "server", Recv: "LockDB", Func: "DoAckLock", Ret: "Int", Target: "lock.expriedTime", Occ: 0,
+		Params: []string{"start : Int", "eflag : Nat16", "expried : Nat16"},
+		Map:    map[string]string{"lock.startTime": "start", "lock.command.ExpriedFlag": "eflag", "lock.command.Expried": "expried"}},
 	{Name: "getMajorityMemberCount", Pkg: "server", Recv: "ArbiterManager", Func: "GetMajorityMemberCount", Ret: "Nat", Params: nil, Map: nil},
 }
 
@@ -86,6 +107,29 @@ func (k *ktr) leanType(term string) string {
 	return ""
 }
 
+// Types: "Bool", "Int" (Go int64/int: no wrap-around assumed), "Nat" (uint64 / unbounded), "Nat8"/"Nat16"/"Nat32" (Go uintN:
+// + and * wrap modulo 2^N exactly as Go does), "Lit" (untyped constant: takes the other operand's type).
+func natWidth(ty string) int {
+	switch ty {
+	case "Nat8":
+		return 8
+	case "Nat16":
+		return 16
+	case "Nat32":
+		return 32
+	}
+	return 0
+}
+
+func leanParamType(ty string) string {
+	if natWidth(ty) > 0 {
+		return "Nat"
+	}
+	return ty
+}
+
+func pow2(w int) string { return fmt.Sprintf("%d", uint64(1)<<uint(w)) }
+
 func (k *ktr) expr(e ast.Expr) (string, string, error) { // returns Lean term, type ("Nat","Int","Bool")
 	if t, ok := k.spec.Map[kNormExpr(e)]; ok {
 		return t, k.leanType(t), nil
@@ -100,7 +144,7 @@ func (k *ktr) expr(e ast.Expr) (string, string, error) { // returns Lean term, t
 			if !ok {
 				return "", "", k.errf(e, "bad literal")
 			}
-			return fmt.Sprintf("%d", n), "Nat", nil
+			return fmt.Sprintf("%d", n), "Lit", nil
 		}
 	case *ast.Ident:
 		if t, ok := k.locals[v.Name]; ok {
@@ -111,12 +155,12 @@ func (k *ktr) expr(e ast.Expr) (string, string, error) { // returns Lean term, t
 			return v.Name, "Bool", nil
 		}
 		if n, ok := k.consts[v.Name]; ok {
-			return fmt.Sprintf("%d", n), "Nat", nil
+			return fmt.Sprintf("%d", n), "Lit", nil
 		}
 	case *ast.SelectorExpr:
 		if id, ok := v.X.(*ast.Ident); ok && id.Name == "protocol" {
 			if n, ok := k.consts[v.Sel.Name]; ok {
-				return fmt.Sprintf("%d", n), "Nat", nil
+				return fmt.Sprintf("%d", n), "Lit", nil
 			}
 		}
 	case *ast.CallExpr:
@@ -128,13 +172,36 @@ func (k *ktr) expr(e ast.Expr) (string, string, error) { // returns Lean term, t
 				if err != nil {
 					return "", "", err
 				}
-				if id.Name == "int64" || id.Name == "int" || id.Name == "int32" {
-					if ty == "Nat" {
-						return "(" + t + " : Int)", "Int", nil
-					}
-					return t, ty, nil
+				if ty == "Bool" {
+					return "", "", k.errf(e, "conversion of a boolean")
 				}
-				return t, ty, nil
+				if id.Name == "int64" || id.Name == "int" {
+					if ty == "Int" {
+						return t, "Int", nil
+					}
+					return "(" + t + " : Int)", "Int", nil // every unsigned ≤ 32-bit value and every Lit fits
+				}
+				if id.Name == "int32" {
+					return "", "", k.errf(e, "int32 conversion is not translated")
+				}
+				target := map[string]string{"uint8": "Nat8", "uint16": "Nat16", "uint32": "Nat32", "uint64": "Nat"}[id.Name]
+				if ty == "Int" {
+					return "", "", k.errf(e, "conversion of a signed value to %s is not translated", id.Name)
+				}
+				if ty == "Lit" {
+					return t, target, nil
+				}
+				sw, tw := natWidth(ty), natWidth(target)
+				if sw == 0 {
+					sw = 64
+				}
+				if tw == 0 {
+					tw = 64
+				}
+				if tw >= sw {
+					return t, target, nil // widening: value unchanged
+				}
+				return "(" + t + " % " + pow2(tw) + ")", target, nil // narrowing truncates
 			}
 		}
 	case *ast.UnaryExpr:
@@ -152,12 +219,27 @@ func (k *ktr) expr(e ast.Expr) (string, string, error) { // returns Lean term, t
 			return "", "", err
 		}
 		coerce := func() {
-			if ta == "Int" && tb == "Nat" {
-				b, tb = "("+b+" : Int)", "Int"
+			if ta == "Lit" && tb != "Lit" {
+				ta = tb
+				if tb == "Int" {
+					a = "(" + a + " : Int)"
+				}
 			}
-			if tb == "Int" && ta == "Nat" {
-				a, ta = "("+a+" : Int)", "Int"
+			if tb == "Lit" && ta != "Lit" {
+				tb = ta
+				if ta == "Int" {
+					b = "(" + b + " : Int)"
+				}
 			}
+			if ta == "Lit" && tb == "Lit" {
+				ta, tb = "Nat", "Nat"
+			}
+		}
+		mixed := func() error {
+			if ta != tb {
+				return k.errf(e, "operands of different Go types (%s, %s): not translated", ta, tb)
+			}
+			return nil
 		}
 		switch v.Op {
 		case token.LAND:
@@ -166,6 +248,9 @@ func (k *ktr) expr(e ast.Expr) (string, string, error) { // returns Lean term, t
 			return "(" + a + " || " + b + ")", "Bool", nil
 		case token.EQL, token.NEQ, token.LSS, token.LEQ, token.GTR, token.GEQ:
 			coerce()
+			if err := mixed(); err != nil {
+				return "", "", err
+			}
 			if ta == "Bool" {
 				op := map[token.Token]string{token.EQL: "==", token.NEQ: "!="}[v.Op]
 				return "(" + a + " " + op + " " + b + ")", "Bool", nil
@@ -177,15 +262,36 @@ func (k *ktr) expr(e ast.Expr) (string, string, error) { // returns Lean term, t
 			return "(decide (" + a + " " + op + " " + b + "))", "Bool", nil
 		case token.ADD, token.SUB, token.MUL, token.QUO, token.REM:
 			coerce()
-			op := map[token.Token]string{token.ADD: "+", token.SUB: "-", token.MUL: "*", token.QUO: "/", token.REM: "%"}[v.Op]
-			if v.Op == token.SUB && ta == "Nat" {
-				return "", "", k.errf(e, "subtraction on naturals is not translated (possible wrap-around)")
+			if err := mixed(); err != nil {
+				return "", "", err
 			}
+			op := map[token.Token]string{token.ADD: "+", token.SUB: "-", token.MUL: "*", token.QUO: "/", token.REM: "%"}[v.Op]
+			if v.Op == token.SUB && ta != "Int" {
+				return "", "", k.errf(e, "subtraction on unsigned values is not translated (possible wrap-around)")
+			}
+			if (v.Op == token.QUO || v.Op == token.REM) && ta == "Int" {
+				// Go truncates towards zero, Lean's Int `/` is Euclidean: they agree for a non-negative dividend and a positive divisor.
+				// Accepted only for `int64(<unsigned term>) / <positive literal>`.
+				_, lit := v.Y.(*ast.BasicLit)
+				if !(lit && b != "(0 : Int)" && strings.HasPrefix(a, "(") && strings.HasSuffix(a, " : Int)") && !strings.Contains(a[:len(a)-7], " : Int")) {
+					return "", "", k.errf(e, "signed division is translated only for int64(unsigned)/literal")
+				}
+			}
+			r := "(" + a + " " + op + " " + b + ")"
+			if w := natWidth(ta); w > 0 && (v.Op == token.ADD || v.Op == token.MUL) {
+				r = "(" + r + " % " + pow2(w) + ")" // Go's unsigned arithmetic wraps
+			}
+			return r, ta, nil
+		case token.AND, token.OR:
+			coerce()
+			if err := mixed(); err != nil {
+				return "", "", err
+			}
+			if ta == "Int" || ta == "Bool" {
+				return "", "", k.errf(e, "bit operation on %s", ta)
+			}
+			op := map[token.Token]string{token.AND: "&&&", token.OR: "|||"}[v.Op]
 			return "(" + a + " " + op + " " + b + ")", ta, nil
-		case token.AND:
-			return "(" + a + " &&& " + b + ")", "Nat", nil
-		case token.OR:
-			return "(" + a + " ||| " + b + ")", "Nat", nil
 		}
 	}
 	return "", "", k.errf(e, "untranslatable expression %s", kNormExpr(e))
@@ -328,7 +434,13 @@ func extractKernels(proto, server *pkgInfo, out *Output, fail func(error)) {
 			continue
 		}
 		k := &ktr{spec: spec, fset: p.fset, locals: map[string]string{}, consts: out.Consts}
-		body, err := k.block(fd.Body.List, "  ")
+		var body string
+		var err error
+		if spec.Target != "" {
+			body, err = extractFragment(k, fd)
+		} else {
+			body, err = k.block(fd.Body.List, "  ")
+		}
 		if err != nil {
 			fail(err)
 			continue
@@ -341,7 +453,8 @@ func extractKernels(proto, server *pkgInfo, out *Output, fail func(error)) {
 func paramList(ps []string) string {
 	var s []string
 	for _, p := range ps {
-		s = append(s, "("+p+")")
+		parts := strings.SplitN(p, " : ", 2)
+		s = append(s, "("+parts[0]+" : "+leanParamType(parts[1])+")")
 	}
 	return strings.Join(s, " ")
 }
